@@ -5,7 +5,7 @@
  * symbolic family, address bytes and prefix length (0..32 / 0..128, as the sortlist parser guarantees: C15).
  * Oracle: the address slots are the same buffers, NULL terminator intact, the contents are a permutation of the
  * input addresses (every value as often as before), and ordered by the index of the first matching pattern
- * (reference matcher written bit by bit), unmatched last. */
+ * (reference matcher: per-byte prefix masks), unmatched last. */
 #include "vp.h"
 #include "ares_gethostbyname.c"
 
@@ -36,8 +36,10 @@ static size_t ref_index(const unsigned char *a, const struct apattern *sl)
     const unsigned char *p = (FAM == 4) ? (const unsigned char *)&sl[i].addr.addr.addr4 : (const unsigned char *)&sl[i].addr.addr.addr6;
     int                  ok = 1;
     if (sl[i].addr.family != (FAM == 4 ? AF_INET : AF_INET6)) continue;
-    for (b = 0; b < AL * 8; b++) {
-      if (b < sl[i].mask && (((a[b / 8] >> (7 - b % 8)) & 1) != ((p[b / 8] >> (7 - b % 8)) & 1))) ok = 0;
+    for (b = 0; b < AL; b++) { /* byte b holds prefix bits 8b .. 8b+7 */
+      unsigned nbits = sl[i].mask > 8 * b ? (sl[i].mask - 8 * b >= 8 ? 8u : (unsigned)(sl[i].mask - 8 * b)) : 0u;
+      unsigned m     = (0xff00u >> nbits) & 0xffu; /* the nbits most significant bits */
+      if ((a[b] & m) != (p[b] & m)) ok = 0;
     }
     if (ok) return i;
   }
